@@ -630,10 +630,57 @@ Proof.
     injection E as <-. cbn [map]. rewrite (H a x Ea), (IH ys eq_refl). reflexivity.
 Qed.
 
-(* one os.walk entry of a directory argument *)
+Lemma lstrip_nonabs x : isabs x = false -> lstrip_sl x = x.
+Proof. destruct x as [|c x]; [reflexivity|]. cbn. intro H. unfold lstrip_sl. cbn. now rewrite H. Qed.
+
+(* the key of a relative string joined below <dest>, from the way its components resolve *)
+Lemma key_under_rel dest x cs : isabs x = false -> (forall S, run S (split_sl x) = rev cs ++ S) ->
+  key (under dest x) = comps dest ++ cs.
+Proof.
+  intros A R. unfold under, edjoin. rewrite (lstrip_nonabs x A).
+  change (comps dest) with (key dest). rewrite <- (key_lstrip dest).
+  change (rel_resolve (join2 (lstrip_sl dest) x) = rel_resolve (lstrip_sl dest) ++ cs). unfold rel_resolve.
+  destruct (lstrip_sl dest) as [|y a] eqn:E.
+  - unfold join2. rewrite A. cbn [rev]. rewrite R, app_nil_r, rev_involutive. reflexivity.
+  - rewrite run_split_join2 by (discriminate || assumption). rewrite R, rev_app_distr, rev_involutive. reflexivity.
+Qed.
+
+(* one os.walk entry, given where the model's directory string lands *)
+Lemma tree_one_entries_gen sl c mode ddstr ddl w l :
+  c_insmode c = Some mode ->
+  key (under (c_dest c) ddstr) = comps (c_dest c) ++ ddl ->
+  (forall n, goodb n -> key (under (c_dest c) (join2 ddstr n)) = (comps (c_dest c) ++ ddl) ++ [n]) ->
+  match opt_all (map (tree_dlink sl (comps (c_dest c) ++ ddl)) (w_dlinks w)),
+        opt_all (map (tree_file sl (comps (c_dest c) ++ ddl) mode) (w_files w)) with
+  | Some ls, Some fs => Some ((comps (c_dest c) ++ ddl, PDir (c_dirmode c)) :: ls ++ fs)
+  | _, _ => None
+  end = Some l ->
+  map action_entry
+    (AMkdirs (under (c_dest c) ddstr) (c_dirmode c)
+     :: map (fun nt => ASymlinkNew (snd nt) (under (c_dest c) (join2 ddstr (fst nt)))) (w_dlinks w)
+     ++ map (fun nf => AInstall (snd nf) (under (c_dest c) (join2 ddstr (fst nf))) (c_insmode c)) (w_files w))
+  = map Some l.
+Proof.
+  intros Hm K0 Kn H.
+  destruct (opt_all (map (tree_dlink sl (comps (c_dest c) ++ ddl)) (w_dlinks w))) as [ls|] eqn:E1; [|discriminate].
+  destruct (opt_all (map (tree_file sl (comps (c_dest c) ++ ddl) mode) (w_files w))) as [fs|] eqn:E2; [|discriminate].
+  injection H as <-. cbn [map action_entry]. rewrite map_app, K0. f_equal. rewrite map_app. f_equal.
+  - apply (opt_all_map_entries (tree_dlink sl (comps (c_dest c) ++ ddl))); [|exact E1].
+    intros [n t] x Hx. unfold tree_dlink in Hx. cbn [fst snd] in *.
+    destruct (good_name n) eqn:Gn; [|discriminate]. destruct sl; [|discriminate]. injection Hx as <-.
+    apply good_name_goodb in Gn. cbn [action_entry]. now rewrite Kn.
+  - apply (opt_all_map_entries (tree_file sl (comps (c_dest c) ++ ddl) mode)); [|exact E2].
+    intros [n f] x Hx. unfold tree_file in Hx. cbn [fst snd] in *.
+    destruct (good_name n) eqn:Gn; [|discriminate]. cbn [negb] in Hx. apply good_name_goodb in Gn.
+    destruct f as [cid|t ok].
+    + destruct (negb sl && false); [discriminate|]. cbn in Hx. injection Hx as <-. rewrite Hm. cbn [action_entry]. now rewrite Kn.
+    + destruct sl; cbn in Hx; [|discriminate]. destruct ok; injection Hx as <-; cbn [action_entry]; now rewrite Kn.
+Qed.
+
+(* a named directory argument: everything lands below <dest>/<base> *)
 Lemma tree_one_entries sl c mode base w l :
   goodb base -> c_insmode c = Some mode ->
-  tree_one sl (comps (c_dest c)) (c_dirmode c) mode base w = Some l ->
+  tree_one sl (comps (c_dest c) ++ [base]) (c_dirmode c) mode w = Some l ->
   let dd := normpath (join2 base (rel_string (w_rel w))) in
   map action_entry
     (AMkdirs (under (c_dest c) dd) (c_dirmode c)
@@ -645,27 +692,59 @@ Proof.
   destruct (forallb good_name (w_rel w)) eqn:Gr; [|discriminate]. cbn [negb] in H. apply forallb_good in Gr.
   assert (Gall : Forall goodb (base :: w_rel w)) by (constructor; assumption).
   assert (Edd : dd = join_sl (base :: w_rel w)) by (apply dest_dir_string; assumption).
-  destruct (opt_all (map (tree_dlink sl (comps (c_dest c) ++ base :: w_rel w)) (w_dlinks w))) as [ls|] eqn:E1; [|discriminate].
-  destruct (opt_all (map (tree_file sl (comps (c_dest c) ++ base :: w_rel w) mode) (w_files w))) as [fs|] eqn:E2; [|discriminate].
-  injection H as <-. cbn [map action_entry]. rewrite map_app, Edd. rewrite key_under_comps by (discriminate || assumption).
-  f_equal. rewrite map_app. f_equal.
-  - apply (opt_all_map_entries (tree_dlink sl (comps (c_dest c) ++ base :: w_rel w))); [|exact E1].
-    intros [n t] x Hx. unfold tree_dlink in Hx. cbn [fst snd] in *.
-    destruct (good_name n) eqn:Gn; [|discriminate]. destruct sl; [|discriminate]. injection Hx as <-.
-    apply good_name_goodb in Gn. cbn [action_entry].
-    rewrite join2_snoc, key_under_comps by (assumption || discriminate || (apply Forall_app; split; [assumption|now constructor]) || (intro Q; destruct (w_rel w); discriminate)).
+  rewrite <- app_assoc in H. cbn [app] in H.
+  apply (tree_one_entries_gen sl c mode dd (base :: w_rel w) w l Hm); [| |exact H]; rewrite Edd.
+  - apply key_under_comps; [discriminate|assumption].
+  - intros n Gn. rewrite join2_snoc, key_under_comps by (assumption || discriminate || (apply Forall_app; split; [assumption|now constructor])).
     now rewrite <- app_assoc.
-  - apply (opt_all_map_entries (tree_file sl (comps (c_dest c) ++ base :: w_rel w) mode)); [|exact E2].
-    intros [n f] x Hx. unfold tree_file in Hx. cbn [fst snd] in *.
-    destruct (good_name n) eqn:Gn; [|discriminate]. cbn [negb] in Hx. apply good_name_goodb in Gn.
-    assert (K : key (under (c_dest c) (join2 (join_sl (base :: w_rel w)) n)) = (comps (c_dest c) ++ base :: w_rel w) ++ [n]).
-    { rewrite join2_snoc, key_under_comps by (assumption || discriminate || (apply Forall_app; split; [assumption|now constructor])).
-      now rewrite <- app_assoc. }
-    destruct f as [cid|t ok].
-    + destruct (negb sl && false); [discriminate|]. cbn in Hx. injection Hx as <-. rewrite Hm. cbn [action_entry]. now rewrite K.
-    + destruct sl; cbn in Hx; [|discriminate]. destruct ok; injection Hx as <-; cbn [action_entry]; now rewrite K.
 Qed.
 
+(* a directory argument spelled with a final "." component: the contents land in <dest> itself *)
+Lemma dot_dir_string rel : Forall goodb rel ->
+  normpath (join2 dot (rel_string rel)) = match rel with [] => dot | _ => join_sl rel end.
+Proof.
+  intro G. destruct rel as [|r1 rel']; [reflexivity|]. cbn [rel_string].
+  inversion G as [|? ? [(P1 & _) N1] _]; subst.
+  rewrite join2_good_tail by (discriminate || reflexivity || now apply isabs_join_sl_good).
+  destruct (join_sl_head r1 rel' P1 N1) as (x & t & E & Ex).
+  unfold normpath. cbn [dot app lead_slashes is_sl N.eqb Pos.eqb Nat.eqb negb repeat].
+  unfold norm_comps. change (46%N :: SL :: join_sl (r1 :: rel')) with (dot ++ SL :: join_sl (r1 :: rel')).
+  rewrite split_app, (split_join (r1 :: rel')) by (apply goodb_noslash, G || discriminate).
+  change (split_sl dot) with [dot]. cbn [app].
+  change (fold_left (norm_step false) (dot :: r1 :: rel') []) with (fold_left (norm_step false) (r1 :: rel') (norm_step false [] dot)).
+  change (norm_step false [] dot) with (@nil str).
+  rewrite fold_plain_rel by (apply goodb_plain, G). rewrite app_nil_r, rev_involutive.
+  cbn [repeat app]. destruct (join_sl (r1 :: rel')) as [|j0 jr] eqn:EE; [exfalso|reflexivity].
+  assert (X : x :: t = []) by (transitivity (join_sl (r1 :: rel')); [symmetry; exact E|exact EE]). discriminate.
+Qed.
+
+Lemma run_dot_name S n : goodb n -> run S (split_sl (dot ++ SL :: n)) = rev [n] ++ S.
+Proof.
+  intros [P N]. rewrite split_app, (split_noslash_single n N). change (split_sl dot) with [dot].
+  cbn [app]. rewrite !run_cons, run_nil. change (norm_step true S dot) with S. now rewrite step_plain.
+Qed.
+
+Lemma tree_one_entries_dot sl c mode w l :
+  c_insmode c = Some mode ->
+  tree_one sl (comps (c_dest c)) (c_dirmode c) mode w = Some l ->
+  let dd := normpath (join2 dot (rel_string (w_rel w))) in
+  map action_entry
+    (AMkdirs (under (c_dest c) dd) (c_dirmode c)
+     :: map (fun nt => ASymlinkNew (snd nt) (under (c_dest c) (join2 dd (fst nt)))) (w_dlinks w)
+     ++ map (fun nf => AInstall (snd nf) (under (c_dest c) (join2 dd (fst nf))) (c_insmode c)) (w_files w))
+  = map Some l.
+Proof.
+  intros Hm H dd. unfold tree_one in H.
+  destruct (forallb good_name (w_rel w)) eqn:Gr; [|discriminate]. cbn [negb] in H. apply forallb_good in Gr.
+  assert (Edd : dd = match w_rel w with [] => dot | _ => join_sl (w_rel w) end) by (apply dot_dir_string; assumption).
+  apply (tree_one_entries_gen sl c mode dd (w_rel w) w l Hm); [| |exact H]; rewrite Edd; destruct (w_rel w) as [|r1 rel'] eqn:Er.
+  - apply key_under_rel; [reflexivity|]. intro S. reflexivity.
+  - apply key_under_comps; [discriminate|assumption].
+  - intros n Gn. rewrite app_nil_r. rewrite join2_good_tail by (discriminate || reflexivity || now apply isabs_good).
+    apply key_under_rel; [reflexivity|]. intro S. now apply run_dot_name.
+  - intros n Gn. rewrite join2_snoc, key_under_comps by (assumption || discriminate || (apply Forall_app; split; [assumption|now constructor])).
+    now rewrite app_assoc.
+Qed.
 
 (* a whole directory argument: induction over the os.walk listing of the source tree *)
 Lemma from_dir_entries sl c mode d walk l :
@@ -673,15 +752,56 @@ Lemma from_dir_entries sl c mode d walk l :
   tree_entries sl (comps (c_dest c)) (c_dirmode c) mode d walk = Some l ->
   map action_entry (from_dir c d walk) = map Some l.
 Proof.
-  intros Hm H. unfold tree_entries in H. destruct (good_name (basename (rstrip_sl d))) eqn:Gb; [|discriminate].
-  apply good_name_goodb in Gb. unfold from_dir. revert l H.
-  induction walk as [|w r IH]; intros l H; cbn [tree_walk] in H.
-  - injection H as <-. reflexivity.
-  - destruct (tree_one sl (comps (c_dest c)) (c_dirmode c) mode (basename (rstrip_sl d)) w) as [a|] eqn:E1; [|discriminate].
-    destruct (tree_walk sl (comps (c_dest c)) (c_dirmode c) mode (basename (rstrip_sl d)) r) as [b|] eqn:E2; [|discriminate].
-    injection H as <-. cbn [map concat]. rewrite !map_app, (IH b eq_refl). f_equal.
-    exact (tree_one_entries sl c mode _ w a Gb Hm E1).
+  intros Hm H. unfold tree_entries in H. unfold from_dir.
+  destruct (str_eqb (basename (rstrip_sl d)) dot) eqn:Ed.
+  - apply str_eqb_eq in Ed. rewrite Ed. revert l H.
+    induction walk as [|w r IH]; intros l H; cbn [tree_walk] in H.
+    + injection H as <-. reflexivity.
+    + destruct (tree_one sl (comps (c_dest c)) (c_dirmode c) mode w) as [a|] eqn:E1; [|discriminate].
+      destruct (tree_walk sl (comps (c_dest c)) (c_dirmode c) mode r) as [b|] eqn:E2; [|discriminate].
+      injection H as <-. cbn [map concat]. rewrite !map_app, (IH b eq_refl). f_equal.
+      exact (tree_one_entries_dot sl c mode w a Hm E1).
+  - destruct (good_name (basename (rstrip_sl d))) eqn:Gb; [|discriminate]. apply good_name_goodb in Gb. revert l H.
+    induction walk as [|w r IH]; intros l H; cbn [tree_walk] in H.
+    + injection H as <-. reflexivity.
+    + destruct (tree_one sl (comps (c_dest c) ++ [basename (rstrip_sl d)]) (c_dirmode c) mode w) as [a|] eqn:E1; [|discriminate].
+      destruct (tree_walk sl (comps (c_dest c) ++ [basename (rstrip_sl d)]) (c_dirmode c) mode r) as [b|] eqn:E2; [|discriminate].
+      injection H as <-. cbn [map concat]. rewrite !map_app, (IH b eq_refl). f_equal.
+      exact (tree_one_entries sl c mode _ w a Gb Hm E1).
 Qed.
+
+(* the rule on the spelling of a directory argument *)
+Theorem recursive_name_rule_proof : forall sl dest dm m d w,
+  (basename (rstrip_sl d) = dot -> tree_entries sl dest dm m d w = tree_walk sl dest dm m w)
+  /\ (good_name (basename (rstrip_sl d)) = true ->
+      tree_entries sl dest dm m d w = tree_walk sl (dest ++ [basename (rstrip_sl d)]) dm m w).
+Proof.
+  intros. unfold tree_entries. split.
+  - intros ->. reflexivity.
+  - intro G. rewrite G. destruct (str_eqb (basename (rstrip_sl d)) dot) eqn:E; [|reflexivity].
+    apply str_eqb_eq in E. rewrite E in G. discriminate.
+Qed.
+
+Example spelling_examples :
+  basename (rstrip_sl (lit "dir/.")) = dot /\ basename (rstrip_sl (lit "dir/sub/.")) = dot
+  /\ basename (rstrip_sl (lit "./dir/./")) = dot /\ basename (rstrip_sl (lit ".")) = dot
+  /\ basename (rstrip_sl (lit "dir//")) = lit "dir" /\ basename (rstrip_sl (lit "./dir/")) = lit "dir"
+  /\ basename (rstrip_sl (lit "a/dir")) = lit "dir".
+Proof. repeat split. Qed.
+
+(* "doins -r hd/." puts hd's contents directly into <dest>; "doins -r hd" below <dest>/hd *)
+Example dot_spelling_example :
+  let c := {| c_dest := lit "/usr/share/foo"; c_insmode := Some 420%N; c_dirmode := Some 493%N |} in
+  let walk := [ {| w_rel := []; w_dlinks := []; w_files := [(lit "k.html", FReg 7%N)] |};
+                {| w_rel := [lit "sub"]; w_dlinks := []; w_files := [(lit "z.txt", FReg 8%N)] |} ] in
+  map action_entry (from_dir c (lit "hd/.") walk)
+  = [Some ([lit "usr"; lit "share"; lit "foo"], PDir (Some 493%N));
+     Some ([lit "usr"; lit "share"; lit "foo"; lit "k.html"], PFile 420%N 7%N);
+     Some ([lit "usr"; lit "share"; lit "foo"; lit "sub"], PDir (Some 493%N));
+     Some ([lit "usr"; lit "share"; lit "foo"; lit "sub"; lit "z.txt"], PFile 420%N 8%N)]
+  /\ nth_error (map action_entry (from_dir c (lit "hd") walk)) 1
+     = Some (Some ([lit "usr"; lit "share"; lit "foo"; lit "hd"; lit "k.html"], PFile 420%N 7%N)).
+Proof. split; vm_compute; reflexivity. Qed.
 
 Lemma from_dirs_entries sl c mode pos l :
   c_insmode c = Some mode ->
